@@ -25,11 +25,13 @@ namespace BRV.Merkle
 /-- **C04 (statement order in the source).** In `handleBlock` the merkle/processor/store calls appear
     in the order the model executes them: per transaction ProcessTx, AddMerkleProof, AddHash; then
     FinalizeMerkleProofs, the Verify loop, and only then ProcessCoinbaseTx, ConfirmTx, AppendBlockTxIDs;
-    and the tree is created with `NewMerkleTree(true)`. (Regenerated from the source by go/cmd/extract;
+    the two cancellation tests (`wasCancelled`) sit after the transaction loop and between the Verify loop and the
+    commit calls, the two points the model reads the cancel flag at; and the tree is created with `NewMerkleTree(true)`. (Regenerated from the source by go/cmd/extract;
     a reordering makes this theorem fail.) -/
 theorem C04_source_call_order :
-    Facts.callOrder_handleBlock = ["ProcessTx", "AddMerkleProof", "AddHash", "FinalizeMerkleProofs", "Verify",
-      "ProcessCoinbaseTx", "ConfirmTx", "AppendBlockTxIDs"] ∧ Facts.merkleTreePrune = 1 := by decide
+    Facts.callOrder_handleBlock = ["ProcessTx", "AddMerkleProof", "AddHash", "wasCancelled", "FinalizeMerkleProofs",
+      "Verify", "wasCancelled", "ProcessCoinbaseTx", "ConfirmTx", "AppendBlockTxIDs"] ∧ Facts.merkleTreePrune = 1 := by
+  decide
 
 /-! ## 1. the streaming tree computes the textbook root -/
 
